@@ -599,7 +599,11 @@ func (b *UnsafeLinkBuffer) WriteDirect(extra []byte, remainLen int) error {
 		newNode.off = malloc
 		newNode.buf = origin.buf[:malloc]
 		newNode.malloc = origin.malloc
-		newNode.unsetFlag(flagUnmanaged)
+		// the remainder takes over the ownership of the memory only if origin owned it:
+		// origin may wrap a user buffer, or may already have been split before.
+		if origin.reusable() {
+			newNode.unsetFlag(flagUnmanaged)
+		}
 		origin.malloc = malloc
 		origin.setFlag(flagUnmanaged)
 
